@@ -764,7 +764,10 @@ class TenSym(PySym):
             if isinstance(base, (list, tuple)):
                 k = self.key(n.slice)
                 if isinstance(k, (int, slice)):
-                    return base[k]
+                    try:
+                        return base[k]
+                    except IndexError:
+                        raise Raised("the analysed path raises: IndexError (index %s of a sequence of %d)" % (k, len(base)), "IndexError('list index')")
                 base = self.to_ten(base)
             if isinstance(base, str):
                 return base[self.key(n.slice)]
